@@ -18,7 +18,11 @@ pub struct Block {
     pub base: usize,
     pub size: usize,
     pub id: u64,
-    /// Watched blocks are reported in `drain_frees` when deallocated.
+    pub align: usize,
+    /// Watched blocks are reported in `drain_frees` when deallocated and are
+    /// *quarantined* instead of returned to the system: a later use after free
+    /// finds the old contents (no crash, no hang on a poisoned mutex) and a
+    /// second free is recorded as a double free instead of corrupting the heap.
     pub watched: bool,
 }
 
@@ -26,6 +30,8 @@ struct Table {
     live: BTreeMap<usize, Block>,
     next_id: u64,
     freed_watched: Vec<Block>,
+    quarantine: BTreeMap<usize, Block>,
+    double_frees: Vec<Block>,
     allocs: u64,
     frees: u64,
 }
@@ -58,6 +64,8 @@ fn with_table<R>(f: impl FnOnce(&mut Table) -> R) -> Option<R> {
             live: BTreeMap::new(),
             next_id: 1,
             freed_watched: Vec::new(),
+            quarantine: BTreeMap::new(),
+            double_frees: Vec::new(),
             allocs: 0,
             frees: 0,
         });
@@ -71,7 +79,7 @@ unsafe impl GlobalAlloc for Tracking {
     unsafe fn alloc(&self, layout: Layout) -> *mut u8 {
         let ptr = unsafe { System.alloc(layout) };
         if !ptr.is_null() {
-            note_alloc(ptr as usize, layout.size());
+            note_alloc(ptr as usize, layout.size(), layout.align());
         }
         ptr
     }
@@ -79,18 +87,22 @@ unsafe impl GlobalAlloc for Tracking {
     unsafe fn alloc_zeroed(&self, layout: Layout) -> *mut u8 {
         let ptr = unsafe { System.alloc_zeroed(layout) };
         if !ptr.is_null() {
-            note_alloc(ptr as usize, layout.size());
+            note_alloc(ptr as usize, layout.size(), layout.align());
         }
         ptr
     }
 
     unsafe fn dealloc(&self, ptr: *mut u8, layout: Layout) {
-        let known = note_free(ptr as usize);
-        if known {
-            // Poison so that a use after free is visible.
-            unsafe { std::ptr::write_bytes(ptr, 0xDD, layout.size()) };
+        match note_free(ptr as usize) {
+            Freed::Plain => {
+                // Poison so that a use after free is visible.
+                unsafe { std::ptr::write_bytes(ptr, 0xDD, layout.size()) };
+                unsafe { System.dealloc(ptr, layout) };
+            }
+            Freed::Unknown => unsafe { System.dealloc(ptr, layout) },
+            // Watched blocks stay allocated until `release_quarantine`.
+            Freed::Quarantined | Freed::Double => {}
         }
-        unsafe { System.dealloc(ptr, layout) };
     }
 
     unsafe fn realloc(&self, ptr: *mut u8, layout: Layout, new_size: usize) -> *mut u8 {
@@ -107,7 +119,14 @@ unsafe impl GlobalAlloc for Tracking {
     }
 }
 
-fn note_alloc(base: usize, size: usize) {
+enum Freed {
+    Plain,
+    Unknown,
+    Quarantined,
+    Double,
+}
+
+fn note_alloc(base: usize, size: usize, align: usize) {
     with_table(|t| {
         let id = t.next_id;
         t.next_id += 1;
@@ -118,25 +137,52 @@ fn note_alloc(base: usize, size: usize) {
                 base,
                 size,
                 id,
+                align,
                 watched: false,
             },
         );
     });
 }
 
-fn note_free(base: usize) -> bool {
+fn note_free(base: usize) -> Freed {
     with_table(|t| {
         if let Some(b) = t.live.remove(&base) {
             t.frees += 1;
             if b.watched {
                 t.freed_watched.push(b);
+                t.quarantine.insert(base, b);
+                Freed::Quarantined
+            } else {
+                Freed::Plain
             }
-            true
+        } else if let Some(b) = t.quarantine.get(&base) {
+            t.double_frees.push(*b);
+            Freed::Double
         } else {
-            false
+            Freed::Unknown
         }
     })
-    .unwrap_or(false)
+    .unwrap_or(Freed::Unknown)
+}
+
+/// Watched blocks that were freed a second time since the last call.
+pub fn drain_double_frees() -> Vec<Block> {
+    with_table(|t| std::mem::take(&mut t.double_frees)).unwrap_or_default()
+}
+
+/// Really free the quarantined blocks (end of a case).
+pub fn release_quarantine() {
+    let blocks: Vec<Block> = with_table(|t| {
+        let v = t.quarantine.values().copied().collect();
+        t.quarantine.clear();
+        v
+    })
+    .unwrap_or_default();
+    for b in blocks {
+        unsafe {
+            System.dealloc(b.base as *mut u8, Layout::from_size_align_unchecked(b.size, b.align));
+        }
+    }
 }
 
 /// The live block containing `addr`, if any.
